@@ -17,12 +17,17 @@ package main
 
 import (
 	"context"
+	"encoding/base64"
 	"encoding/json"
+	"errors"
 	"fmt"
 	"os"
+	"reflect"
 	"sort"
+	"strconv"
 	"strings"
 	"sync"
+	"unsafe"
 
 	"google.golang.org/grpc"
 	"google.golang.org/grpc/codes"
@@ -33,9 +38,11 @@ import (
 	authzenv1 "github.com/openfga/api/proto/authzen/v1"
 	openfgav1 "github.com/openfga/api/proto/openfga/v1"
 
+	"github.com/openfga/openfga/internal/authz"
 	"github.com/openfga/openfga/internal/verifharness/lib/rec"
 	"github.com/openfga/openfga/internal/verifharness/lib/storehist"
 	"github.com/openfga/openfga/pkg/authclaims"
+	"github.com/openfga/openfga/pkg/logger"
 	"github.com/openfga/openfga/pkg/server"
 	"github.com/openfga/openfga/pkg/storage"
 	"github.com/openfga/openfga/pkg/tuple"
@@ -304,6 +311,79 @@ func (d *countDS) ReadChanges(ctx context.Context, store string, f storage.ReadC
 }
 
 // ---------------------------------------------------------------------------------------------
+// fault shim between the authorizer and the server's Check / ListObjects (authz.ServerInterface):
+// counts the authorization checks of one call and, when armed, makes the k-th one fail
+// (mode "error": that check returns an error; mode "cancel": the request context is cancelled
+// when the k-th check is issued and that check and every later one return the context's error)
+
+type faultShim struct {
+	srv    *server.Server
+	mu     sync.Mutex
+	n      int
+	k      int // 0 = not armed
+	cancel context.CancelFunc
+	fromK  bool
+	fired  bool
+}
+
+func (f *faultShim) arm(k int, fromK bool, cancel context.CancelFunc) {
+	f.mu.Lock()
+	f.n, f.k, f.fromK, f.cancel, f.fired = 0, k, fromK, cancel, false
+	f.mu.Unlock()
+}
+
+func (f *faultShim) step(ctx context.Context) error {
+	f.mu.Lock()
+	defer f.mu.Unlock()
+	f.n++
+	if f.k == 0 {
+		return nil
+	}
+	if f.fromK && f.n >= f.k {
+		f.fired = true
+		if f.cancel != nil {
+			f.cancel()
+		}
+		if err := ctx.Err(); err != nil {
+			return err
+		}
+		return context.Canceled
+	}
+	if !f.fromK && f.n == f.k {
+		f.fired = true
+		return errors.New("injected failure of an authorization check")
+	}
+	return nil
+}
+
+func (f *faultShim) Check(ctx context.Context, req *openfgav1.CheckRequest) (*openfgav1.CheckResponse, error) {
+	if err := f.step(ctx); err != nil {
+		return nil, err
+	}
+	return f.srv.Check(ctx, req)
+}
+
+func (f *faultShim) ListObjects(ctx context.Context, req *openfgav1.ListObjectsRequest) (*openfgav1.ListObjectsResponse, error) {
+	if err := f.step(ctx); err != nil {
+		return nil, err
+	}
+	return f.srv.ListObjects(ctx, req)
+}
+
+// installShim replaces the server's authorizer by one of the same kind (authz.NewAuthorizer, same
+// configuration) whose ServerInterface is the shim.  The field is unexported: reflect + unsafe.
+func installShim(srv *server.Server, storeID, modelID string) *faultShim {
+	sh := &faultShim{srv: srv}
+	f := reflect.ValueOf(srv).Elem().FieldByName("authorizer")
+	if !f.IsValid() {
+		must(errors.New("Server has no field `authorizer`"), "install fault shim")
+	}
+	var a authz.AuthorizerInterface = authz.NewAuthorizer(&authz.Config{StoreID: storeID, ModelID: modelID}, sh, logger.NewNoopLogger())
+	reflect.NewAt(f.Type(), unsafe.Pointer(f.UnsafeAddr())).Elem().Set(reflect.ValueOf(&a).Elem())
+	return sh
+}
+
+// ---------------------------------------------------------------------------------------------
 // scenario
 
 type tstore struct {
@@ -329,6 +409,7 @@ type world struct {
 	stores []*tstore // index 0 = the access-control store
 	ghost  string    // a store id that never existed
 	uniq   int
+	shim   *faultShim
 	mid    *string // probes: the authorization model id to put into the request (nil = default)
 }
 
@@ -705,9 +786,13 @@ func callV(c callRec) rec.V {
 }
 
 func (w *world) listStores(id identity, name string, pageSize int) (int, []string, []string) {
+	return w.listStoresFrom(id, name, pageSize, "")
+}
+
+// listStoresFrom reads every page from the given continuation token on
+func (w *world) listStoresFrom(id identity, name string, pageSize int, token string) (int, []string, []string) {
 	w.tr.reset()
 	var ids []string
-	token := ""
 	for page := 0; page < 50; page++ {
 		req := &openfgav1.ListStoresRequest{Name: name, ContinuationToken: token}
 		if pageSize > 0 {
@@ -728,6 +813,35 @@ func (w *world) listStores(id identity, name string, pageSize int) (int, []strin
 	}
 	sort.Strings(ids)
 	return 0, ids, w.tr.listIDs
+}
+
+// forgedTokens: continuation tokens that were not handed out for this listing.  sqlite: the token
+// is the base64 of a store id (rows with id >= token follow); memory: base64 of an offset into the
+// caller's filtered list.  Returns (token, position in the id-ordered live list / offset).
+func forgedTokens(r *rec.Rand, backend string, liveIDs []string) [][2]any {
+	var out [][2]any
+	n := len(liveIDs)
+	pos := []int{0, n - 1, n}
+	if n > 2 {
+		pos = append(pos, r.Range(1, n-2))
+	}
+	for _, p := range pos {
+		if p < 0 {
+			continue
+		}
+		var raw string
+		if backend == "sqlite" {
+			if p < n {
+				raw = liveIDs[p]
+			} else {
+				raw = "7ZZZZZZZZZZZZZZZZZZZZZZZZZ" // sorts after every ULID of this run
+			}
+		} else {
+			raw = strconv.Itoa(p)
+		}
+		out = append(out, [2]any{base64.URLEncoding.EncodeToString([]byte(raw)), p})
+	}
+	return out
 }
 
 func runScenario(wr *rec.Writer, scenSeed uint64, backend string) {
@@ -758,6 +872,7 @@ func runScenario(wr *rec.Writer, scenSeed uint64, backend string) {
 		must(fmt.Errorf("access control is not enabled"), "server options")
 	}
 	w := &world{be: be, srv: srv, tr: tr, skip: skip, ghost: storehist.NewULID()}
+	w.shim = installShim(srv, rootID, rootModelID)
 	be.Disown() // srv.Close() closes the datastore
 	w.stores = append(w.stores, &tstore{id: rootID, name: "root-store", canon: "root", modelID: rootModelID, root: true, hasModel: true})
 
@@ -906,9 +1021,13 @@ func runScenario(wr *rec.Writer, scenSeed uint64, backend string) {
 				}
 			}
 		}
+		sorted := append([]*tstore{}, w.stores...)
+		sort.Slice(sorted, func(i, j int) bool { return sorted[i].id < sorted[j].id })
 		var storesV []rec.V
-		for _, s := range w.stores {
+		var liveIDs []string
+		for _, s := range sorted {
 			storesV = append(storesV, rec.L(rec.S(s.canon), rec.S(s.name)))
+			liveIDs = append(liveIDs, s.id)
 		}
 		p.storesV = storesV
 		for _, variant := range []struct {
@@ -916,7 +1035,12 @@ func runScenario(wr *rec.Writer, scenSeed uint64, backend string) {
 			page int
 		}{{"", 0}, {"alpha", r.Range(1, 2)}, {"", r.Range(1, 3)}, {"nosuch", 0}} {
 			cl, got, idsSeen := w.listStores(p.id, variant.name, variant.page)
-			p.lists = append(p.lists, rec.L(rec.S(variant.name), rec.I(cl), rec.LS(got), rec.LS(idsSeen)))
+			p.lists = append(p.lists, rec.L(rec.S(variant.name), rec.I(cl), rec.LS(got), rec.LS(idsSeen), rec.I(-1)))
+		}
+		for _, ft := range forgedTokens(r, backend, liveIDs) {
+			cl, got, idsSeen := w.listStoresFrom(p.id, "", r.Range(0, 3), ft[0].(string))
+			p.lists = append(p.lists, rec.L(rec.S(""), rec.I(cl), rec.LS(got), rec.LS(idsSeen), rec.I(ft[1].(int))))
+			wr.Stat("liststores_forged_token", 1)
 		}
 	}
 	// probes: an UNAUTHORISED caller against target stores in the states that make work done
@@ -985,6 +1109,106 @@ func runScenario(wr *rec.Writer, scenSeed uint64, backend string) {
 		}
 	}
 
+	// faults: the k-th authorization check of a call fails (error), or the request context is
+	// cancelled when the k-th check is issued; k is swept past the number of checks a call makes.
+	// Writes confined to one module, spanning two modules, module-less; other handlers;
+	// ListStores (checks: system object, then ListObjects).  Whatever fails, a call that the
+	// control store does not authorize must not be let through.
+	{
+		type fcase struct {
+			handler string
+			specs   [][2]string // Write only
+		}
+		fcases := []fcase{
+			{"Write", [][2]string{{"ma1", "member"}}}, {"Write", [][2]string{{"mb1", "member"}, {"mix", "viewer"}}},
+			{"Write", [][2]string{{"ma1", "member"}, {"mb1", "member"}}}, {"Write", [][2]string{{"core", "member"}}},
+			{"Write", [][2]string{{"mc1", "member"}, {"ext", "extra"}}},
+			{"Check", nil}, {"Read", nil}, {"GetStore", nil}, {"ListObjects", nil}, {"ReadChanges", nil},
+		}
+		var subjects []*perID
+		for _, p := range all {
+			if p.id.Label == "stranger" {
+				subjects = append(subjects, p)
+			}
+		}
+		clients := all[3 : 3+nClients]
+		for _, i := range []int{r.Intn(nClients), r.Intn(nClients), r.Intn(nClients)} {
+			dup := false
+			for _, q := range subjects {
+				dup = dup || q == clients[i]
+			}
+			if !dup {
+				subjects = append(subjects, clients[i])
+			}
+		}
+		for _, p := range subjects {
+			var faultsV, lsV []rec.V
+			for _, st := range w.stores[1 : len(w.stores)-1] {
+				for _, fc := range fcases {
+					for k := 1; k <= 3; k++ {
+						for _, fromK := range []bool{false, true} {
+							if fc.specs == nil && k == 3 {
+								continue
+							}
+							ctx, cancel := context.WithCancel(w.ctxFor(p.id))
+							var lookups []rec.V
+							var err error
+							w.tr.reset()
+							if fc.handler == "Write" {
+								req := &openfgav1.WriteRequest{StoreId: st.id, Writes: &openfgav1.WriteRequestWrites{OnDuplicate: "ignore"}}
+								for _, sp := range fc.specs {
+									w.uniq++
+									req.Writes.TupleKeys = append(req.Writes.TupleKeys, tuple.NewTupleKey(fmt.Sprintf("%s:f%d", sp[0], w.uniq), sp[1], "user:u"))
+									kind, mod := lookup(sp[0], sp[1])
+									lookups = append(lookups, rec.L(rec.I(kind), rec.S(mod)))
+								}
+								w.shim.arm(k, fromK, cancel)
+								_, err = w.srv.Write(ctx, req)
+							} else {
+								w.shim.arm(k, fromK, cancel)
+								err = w.callHandler(ctx, fc.handler, st)
+							}
+							fired, nchecks := w.shim.fired, w.shim.n
+							w.shim.arm(0, false, nil)
+							cancel()
+							cl, code := classOf(err)
+							faultsV = append(faultsV, rec.L(rec.S(fc.handler), rec.S(fc.handler), rec.S(st.canon), rec.L(lookups...),
+								rec.I(k), rec.Bool(fromK), rec.I(cl), rec.I(code), rec.Bool(fired), rec.I(nchecks)))
+							wr.Stat("fault_calls", 1)
+							if fired {
+								wr.Stat("fault_fired", 1)
+								wr.Stat(fmt.Sprintf("fault_fired_class_%d", cl), 1)
+							}
+						}
+					}
+				}
+			}
+			for k := 1; k <= 3; k++ {
+				for _, fromK := range []bool{false, true} {
+					ctx, cancel := context.WithCancel(w.ctxFor(p.id))
+					w.shim.arm(k, fromK, cancel)
+					resp, err := w.srv.ListStores(ctx, &openfgav1.ListStoresRequest{})
+					fired := w.shim.fired
+					w.shim.arm(0, false, nil)
+					cancel()
+					cl, _ := classOf(err)
+					var got []string
+					for _, st := range resp.GetStores() {
+						got = append(got, w.canon(st.GetId()))
+					}
+					sort.Strings(got)
+					lsV = append(lsV, rec.L(rec.I(k), rec.Bool(fromK), rec.I(cl), rec.LS(got), rec.Bool(fired)))
+					wr.Stat("fault_calls", 1)
+				}
+			}
+			claimsState := 1
+			wr.Case(desc{Kind: "fault", ScenSeed: scenSeed, Backend: backend, Identity: p.id.Label, NT: true},
+				rec.I(6), rec.I(claimsState), rec.S(p.id.ClientID), rec.L(p.storesV...), rec.L(p.grantsV...), p.laV,
+				rec.L(faultsV...), rec.L(lsV...), rec.S(backend))
+			wr.Stat("fault_records", 1)
+		}
+	}
+
 	// phase 3: CreateStore, then DeleteStore (stores disappear, so this comes last)
 	orig := append([]*tstore{}, w.stores...)
 	for pi, p := range all {
@@ -1033,6 +1257,7 @@ func runScenario(wr *rec.Writer, scenSeed uint64, backend string) {
 	}
 	// the live store list, from the datastore itself
 	var liveV []rec.V
+	var liveIDs4 []string
 	nLive := 0
 	{
 		token := ""
@@ -1045,6 +1270,7 @@ func runScenario(wr *rec.Writer, scenSeed uint64, backend string) {
 					must(fmt.Errorf("store %s (%s) is unknown to the driver", st.GetId(), st.GetName()), "live stores")
 				}
 				liveV = append(liveV, rec.L(rec.S(c), rec.S(st.GetName())))
+				liveIDs4 = append(liveIDs4, st.GetId())
 				nLive++
 			}
 			token = resp.GetContinuationToken()
@@ -1065,7 +1291,7 @@ func runScenario(wr *rec.Writer, scenSeed uint64, backend string) {
 			page int
 		}{{"", 0}, {"", r.Range(1, 3)}, {"alpha", 0}} {
 			cl, got, idsSeen := w.listStores(p.id, variant.name, variant.page)
-			p.lateV = append(p.lateV, rec.L(rec.S(variant.name), rec.I(cl), rec.LS(got), rec.LS(idsSeen)))
+			p.lateV = append(p.lateV, rec.L(rec.S(variant.name), rec.I(cl), rec.LS(got), rec.LS(idsSeen), rec.I(-1)))
 			if cl == 0 {
 				for _, seen := range idsSeen {
 					var k int
@@ -1079,6 +1305,17 @@ func runScenario(wr *rec.Writer, scenSeed uint64, backend string) {
 					}
 				}
 			}
+		}
+	}
+
+	if !sort.StringsAreSorted(liveIDs4) {
+		must(errors.New("ListStores did not return the stores in id order"), "live stores")
+	}
+	for _, p := range all {
+		for _, ft := range forgedTokens(r, backend, liveIDs4) {
+			cl, got, idsSeen := w.listStoresFrom(p.id, "", r.Range(0, 3), ft[0].(string))
+			p.lateV = append(p.lateV, rec.L(rec.S(""), rec.I(cl), rec.LS(got), rec.LS(idsSeen), rec.I(ft[1].(int))))
+			wr.Stat("liststores_forged_token", 1)
 		}
 	}
 
@@ -1135,7 +1372,7 @@ func main() {
 				continue
 			}
 			var d desc
-			if json.Unmarshal([]byte(line), &d) != nil || (d.Kind != "identity" && d.Kind != "probe") {
+			if json.Unmarshal([]byte(line), &d) != nil || (d.Kind != "identity" && d.Kind != "probe" && d.Kind != "fault") {
 				continue
 			}
 			key := fmt.Sprintf("%d/%s", d.ScenSeed, d.Backend)
